@@ -211,6 +211,8 @@ struct Cfg {
     read_seed: u64,
     hold: bool,
     arena_prep: u64,
+    /// Continue with a clone of the chunker / reader after this many calls (0: never).
+    clone_at: usize,
 }
 
 fn cfg(plan: &Plan) -> Cfg {
@@ -225,6 +227,7 @@ fn cfg(plan: &Plan) -> Cfg {
         read_seed: plan.knob("read_seed"),
         hold: plan.knob("hold") != 0,
         arena_prep: plan.knob("arena_prep"),
+        clone_at: plan.knob("clone_at") as usize,
     }
 }
 
@@ -263,6 +266,12 @@ fn run_chunker(stream: &[u8], c: &Cfg, vs: &mut Vec<V>, stats: &mut Stats, log: 
         }
         if c.arena_prep % 4 == 3 && pumps % 3 == 0 {
             std::mem::swap(&mut arena, &mut spare);
+        }
+        if c.clone_at != 0 && pumps == c.clone_at {
+            // Rarely used entry point: carry on with a clone, drop the original.
+            let copy = chunker.clone();
+            chunker = copy;
+            stats.bump("probe.continued_with_a_clone");
         }
         let chunk = match chunker.pump(&mut arena, &mut reader, c.block) {
             Ok(chunk) => chunk,
@@ -412,7 +421,14 @@ fn run_reader(stream: &[u8], c: &Cfg, vs: &mut Vec<V>, stats: &mut Stats, log: &
     let mut reader = FaultyStream::new(stream, c.read_seed);
     let mut held: Vec<(OwningIovec<'static>, Vec<u8>)> = Vec::new();
     let mut got = 0usize;
+    let mut calls = 0usize;
     loop {
+        calls += 1;
+        if c.clone_at != 0 && calls == c.clone_at {
+            let copy = sr.clone();
+            sr = copy;
+            stats.bump("probe.continued_with_a_clone");
+        }
         let res = if c.custom_judge {
             sr.next_record_bytes(&mut reader, &custom, c.block_opt)
         } else {
@@ -549,6 +565,9 @@ impl World for StreamWorld {
         knobs.insert("block".into(), rng.below(if ask.tiny { 9 } else { BLOCKS.len() as u64 }));
         knobs.insert("read_seed".into(), if rng.chance(1, 4) { 0 } else { rng.next() >> 1 });
         knobs.insert("hold".into(), rng.chance(1, 3) as u64);
+        if rng.chance(1, 6) {
+            knobs.insert("clone_at".into(), rng.range(1, 6));
+        }
         knobs.insert("arena_prep".into(), if rng.chance(1, 2) { 0 } else { rng.below(64) });
         if !chunker {
             if rng.chance(1, 3) {
